@@ -112,7 +112,8 @@ func createAudioSeg(vodFS fs.FS, a *asset, rec audioRecipe) (*mp4.MediaSegment, 
 			sampleItvls[len(sampleItvls)-1].nrFillSamples = nrFills
 			break
 		}
-		sampleItvls[len(sampleItvls)-1].endIdx = uint32((rec.audioInEnd - nextAudioStart) / sampleDur)
+		last := &sampleItvls[len(sampleItvls)-1]
+		last.endIdx = last.startIdx + uint32((rec.audioInEnd-nextAudioStart)/sampleDur)
 		timeCollected += sampleItvls[len(sampleItvls)-1].dur(sampleDur)
 		break
 	}
